@@ -12,6 +12,9 @@ import (
 func (m *Machine) bigOf(v Value) BigV {
 	switch x := v.(type) {
 	case BigV:
+		if x.cell != nil {
+			return m.cur.mem[x.cell.id].(BigV)
+		}
 		return x
 	case Ptr:
 		if x.obj == nil && len(x.alts) == 0 {
@@ -35,7 +38,22 @@ func (m *Machine) bigLin(b BigV) *Lin {
 }
 
 func (m *Machine) bigStore(recv Value, b BigV) {
-	m.store(recv.(Ptr), b)
+	p := recv.(Ptr)
+	if m.bigShared {
+		// worst case of math/big's storage reuse (nat.make): a receiver-writing method writes the limbs in place,
+		// so every struct copy that shares the backing array sees the new value
+		if cur, ok := m.load(p).(BigV); ok && cur.cell != nil {
+			if m.effectsOn && cur.cell.id <= m.preexistBelow {
+				m.noteEffect(Ptr{obj: cur.cell})
+				m.oblige(m.cbool(false), "effect: write to big.Int storage that existed before the call", "")
+			}
+			m.cur.mem[cur.cell.id] = BigV{c: b.c, lin: b.lin}
+			return
+		}
+		m.store(p, BigV{cell: m.newObj(BigV{c: b.c, lin: b.lin}, "bigcell")})
+		return
+	}
+	m.store(p, b)
 }
 
 func (m *Machine) byteSliceConst(s SliceV) ([]byte, bool) {
